@@ -20,7 +20,7 @@ Definition dial_ok (resolved : list (Z * bool)) (d : list Z) : bool :=
   Bool.eqb (has true) (got true) && Bool.eqb (has false) (got false).
 
 Definition check_dns : rd verdict :=
-  resolved <- getlist (getpair getz getbool) ;; dials <- getlist (getlist getz) ;; errs <- getz ;;
+  resolved <- getlist (getpair getz getbool) ;; dials <- getlist (getlist getz) ;; errs <- getz ;; queries <- getz ;; conc <- getz ;;
   let n := length dials in
   let late := skipn (n / 2) dials in
   let covered := forallb (fun a => existsb (fun d => memz (fst a) d) late) resolved in
@@ -29,7 +29,9 @@ Definition check_dns : rd verdict :=
     [ prop_ok 1 (forallb (dial_ok resolved) dials)
               (match filter (fun d => negb (dial_ok resolved d)) dials with d :: _ => d | [] => [] end);
       prop_ok 2 (negb enough || covered) [Z.of_nat n];
-      prop_ok 3 (errs =? 0) [errs] ]).
+      prop_ok 3 (errs =? 0) [errs];
+      (* TTL 0 = cached forever: no new lookups for later connections *)
+      prop_ok 4 (queries <=? 4 * conc + 4) [queries; Z.of_nat n] ]).
 
 Definition check_connect : rd verdict :=
   k <- getz ;; sequential <- getbool ;; draws <- getlist getz ;; passthrough_ok <- getbool ;;
@@ -46,6 +48,11 @@ Definition check_connect : rd verdict :=
 Definition check : rd verdict :=
   kind <- getz ;;
   if kind =? 1 then check_dns else if kind =? 2 then check_connect
+  else if kind =? 4 then
+    (k <- getz ;; draws <- getlist getz ;;
+     (* the DNS dials of a custom resolver rotate over its addresses: the i-th goes to address (i+1) mod k *)
+     let model := map Z.of_nat (rot_draws (Z.to_nat k) 1 (length draws)) in
+     ret (prop_ok 40 (forallb (fun d => (0 <=? d) && (d <? k)) draws && list_eqb model draws) [k]))
   else if kind =? 3 then
     (ran <- getbool ;; keepalive <- getbool ;; n <- getz ;; okc <- getz ;; hits <- getlist getz ;;
      (* the command's requests for the mapped address all succeeded at the replacements, and with
